@@ -93,7 +93,15 @@ pub fn tame(p: &mut Program, s: &mut Src, foreign: bool) {
 pub fn limit_pair(s: &mut Src) -> (e57ref::scene::LimitVal, e57ref::scene::LimitVal) {
     use e57ref::fx::F32;
     use e57ref::scene::LimitVal as L;
-    match s.weighted(&[4, 3, 2, 1, 1]) {
+    match s.weighted(&[4, 3, 2, 1, 1, 1]) {
+        5 => {
+            // ScaledInteger elements with a scale and offset of their own, ascending in the numbers they stand for
+            let scale = *s.pick(&[1.0, 0.5, 0.001, 2.0, -1.0, 256.0]);
+            let offset = *s.pick(&[0.0, 0.0, 1.5, -100.25]);
+            let (a, b) = (s.range(-1000, 70000), s.range(-1000, 70000));
+            let (lo, hi) = if (scale > 0.0) == (a <= b) { (a, b) } else { (b, a) };
+            (L::SX { raw: lo, scale: F64(scale), offset: F64(offset) }, L::SX { raw: hi, scale: F64(scale), offset: F64(offset) })
+        }
         0 => {
             let a = *s.pick(&[0i64, 0, 1, -100, i64::MIN, 1000]);
             let b = *s.pick(&[255i64, 65535, 1023, 1, i64::MAX, 1000]);
